@@ -174,6 +174,18 @@ TIES = {
                          "theorems": ["rdflib_term_eq_is_model", "rdflib_sim_spo", "rdflib_sim_graph", "rdflib_encode_triple_is_model",
                                       "rdflib_encode_quad_is_model", "rdflib_stream_triple_is_model", "rdflib_stream_quad_is_model",
                                       "rdflib_stream_graph_is_model"]},
+    # the rdflib integration's writer drivers (namespace_declarations, triples / quads / graphs_stream_frames and the singledispatch
+    # stream_frames) over rdflib's Graph / Dataset as the unit's stub module specifies them (iteration, graphs(), quads(), namespaces()) and
+    # over a generator of statements, against the model's rdf_* drivers: frames yielded, how the run ends, the stream left
+    "rdflib_drivers": {"sources": ["pyjelly/integrations/rdflib/serialize.py", "pyjelly/serialize/encode.py", "pyjelly/serialize/streams.py",
+                                   "pyjelly/serialize/flows.py"],
+                       "unit": "rdflib_serialize", "gen": "RdflibSerializeGen", "tie": "RdflibDriversTie",
+                       "needs": ["lookup_enc", "lookup_dec", "options", "encode", "encode_stmt", "flows", "streams", "decode", "decoder_base", "stmt_layout",
+                                 "rdflib_serialize"],
+                       "theorems": ["rdflib_namespace_declarations_is_model", "rdflib_namespace_declarations_ds_is_model",
+                                    "rdflib_quads_stream_frames_is_model", "rdflib_quads_stream_frames_gen_is_model",
+                                    "rdflib_triples_stream_frames_is_model", "rdflib_triples_stream_frames_gen_is_model",
+                                    "rdflib_triples_stream_frames_ds_is_model", "rdflib_graphs_stream_frames_is_model", "rdflib_stream_frames_is_model"]},
     "generic_sink": {"sources": ["pyjelly/integrations/generic/generic_sink.py"], "gen": "GenericSinkGen", "tie": "GenericTerms", "needs": [],
                      "theorems": ["source_term_eq_is_model"]},
     "generic_parse": {"sources": ["pyjelly/integrations/generic/parse.py", "pyjelly/integrations/generic/generic_sink.py", "pyjelly/parse/decode.py"],
@@ -285,7 +297,7 @@ def _static_digest() -> str:
         for p in sorted((VERIF / "coq" / d).glob("*.v")):
             h.update(p.name.encode())
             h.update(p.read_bytes())
-    for p in sorted((VERIF / "translate").glob("*.py")):
+    for p in sorted((VERIF / "translate").glob("*.py")) + sorted((VERIF / "translate" / "stubs").glob("*.py")):
         h.update(p.name.encode())
         h.update(p.read_bytes())
     return h.hexdigest()
@@ -443,14 +455,17 @@ def _tx_check(ctx, repo: str, n: int, reader: bool, writer: bool, rdf: bool = Fa
         if rc == 0 and rdf:
             rcases, rstats = txcheck.gen_rdflib_cases(_C, n)
             stats["rdflib"] = rstats
+            rdcases, rdstats = txcheck.gen_rdflib_driver_cases(_C, max(20, n // 2))
+            rcases += rdcases
+            stats["rdflib_drivers"] = rdstats
             (Path(tmpd) / "cases" / "TxCasesR.v").write_text(txcheck.coq_file_rdflib(rcases))
             rc, out = sh(f"cd {VERIF}/coq && timeout 1500 coqc {q} -Q {tmpd}/cases PJ.Tx {tmpd}/cases/TxCasesR.v", timeout=1600)
             if rc != 0:
                 m = re.search(r"line (\d+)", out)
                 k = (int(m.group(1)) - 5) // 2 if m else -1
                 bad = rcases[k][:300] + " ... " + rcases[k][-300:] if 0 <= k < len(rcases) else "?"
-                return (f"translation cross-check (rdflib): the specification of rdflib's term objects in the translation unit, or the translated RDFLibTermEncoder with the "
-                        f"Stream classes (generated Gallina evaluated by vm_compute), differs from the real rdflib / the real code of this tree: {bad} :: {out[-200:]}"), len(cases) + len(rcases), stats
+                return (f"translation cross-check (rdflib): the specification of rdflib's term objects and Graph / Dataset containers in the translation unit, or the translated RDFLibTermEncoder with the "
+                        f"Stream classes and the rdflib drivers (generated Gallina evaluated by vm_compute), differs from the real rdflib / the real code of this tree: {bad} :: {out[-200:]}"), len(cases) + len(rcases), stats
             cases = cases + rcases
     finally:
         shutil.rmtree(tmpd, ignore_errors=True)
@@ -537,7 +552,10 @@ def source_ties(ctx, po: dict, pid: str) -> list[str]:
                                     + (f"; rdflib: the unit's specification of rdflib's term objects against the real ones (isinstance, str, ==: {rd['object_pairs']} pairs, "
                                        f"{rd['equal_pairs']} equal, {rd['case_only_pairs']} literals that differ in the case of the language tag only) and RDFLibTermEncoder under "
                                        f"TripleStream / QuadStream: same frames and exception classes on {rd['streams']} statement lists ({rd['frames']} frames; exceptions compared: {rd['exceptions']})"
-                                       if rd else ""))
+                                       if rd else "")
+                                    + (f"; rdflib drivers on real rdflib Graphs / Datasets (and generators of Triple / Quad) against the translated drivers on the stand-ins built from "
+                                       f"what the real containers hand out (iteration, graphs(), quads(), namespaces()): same frames and exception classes on {rdd['runs']} runs "
+                                       f"({rdd['by_driver']}; {rdd['frames']} frames; exceptions compared: {rdd['exceptions']})" if (rdd := tx_stats.get("rdflib_drivers")) else ""))
     if prim_bad:
         po["broken"].append(prim_bad)
     else:
